@@ -57,7 +57,7 @@ func (x *Exec) callWith(fr *Frame, st *State, c *ssa.CallCommon, fv Value, args 
 				x.callAsserts(fr, st, key, ord, nil, args, pos)
 				k0 := k
 				k = func(st2 *State, res Value) {
-					st2.calls = &callEntry{frame: fr.id, key: key, res: res, parent: st2.calls}
+					st2.calls = &callEntry{frame: fr.id, top: topID(fr), key: key, res: res, parent: st2.calls}
 					x.afterCall(fr, st2, key, nil, args, res)
 					k0(st2, res)
 				}
@@ -83,7 +83,7 @@ func (x *Exec) callFunc(fr *Frame, st *State, fn *ssa.Function, args []Value, nb
 	k0 := k
 	k = func(st2 *State, res Value) {
 		// remember the result of this call (callres() in contract expressions)
-		st2.calls = &callEntry{frame: fr.id, key: key, res: res, parent: st2.calls}
+		st2.calls = &callEntry{frame: fr.id, top: topID(fr), key: key, res: res, parent: st2.calls}
 		x.afterCall(fr, st2, key, fn, args[nbind:], res)
 		k0(st2, res)
 	}
@@ -297,7 +297,7 @@ func (x *Exec) invoke(fr *Frame, st *State, c *ssa.CallCommon, recv Value, args 
 		x.callAsserts(fr, st, key, ord, nil, args, pos)
 		k0 := k
 		k = func(st2 *State, res Value) {
-			st2.calls = &callEntry{frame: fr.id, key: key, res: res, parent: st2.calls}
+			st2.calls = &callEntry{frame: fr.id, top: topID(fr), key: key, res: res, parent: st2.calls}
 			x.afterCall(fr, st2, key, nil, args, res)
 			k0(st2, res)
 		}
@@ -698,7 +698,7 @@ func (x *Exec) builtin(fr *Frame, st *State, b *ssa.Builtin, c *ssa.CallCommon, 
 		} else {
 			res = &IfaceV{Tag: TZero, Data: TZero}
 		}
-		st.calls = &callEntry{frame: fr.id, key: "builtin.recover", res: res, parent: st.calls}
+		st.calls = &callEntry{frame: fr.id, top: topID(fr), key: "builtin.recover", res: res, parent: st.calls}
 		return res
 	case "print", "println":
 		return nil
@@ -864,4 +864,15 @@ func mayWriteShared(sig *types.Signature) bool {
 		}
 	}
 	return false
+}
+
+// topID: the frame of the function under verification that (transitively) inlined fr.
+func topID(fr *Frame) int {
+	if fr != nil && fr.ctx != nil && fr.ctx.top != nil {
+		return fr.ctx.top.id
+	}
+	if fr != nil {
+		return fr.id
+	}
+	return -1
 }
